@@ -489,7 +489,10 @@ fn cal_scenario(rec: &mut Rec, run: u64, pair: &str, dirs: [&str; 2], prefixes: 
                 (0..2).map(|d| mk(&fname(prefixes[d]), &fname(suffixes[d]), &hints[d])).collect();
             let mut held: Vec<(usize, Box<dyn Any>)> = vec![];
             for d in 0..2 {
-                for n in [format!("own{d}"), "both".to_string()] {
+                // (shared memory has no directories: with EQUAL prefixes the two configurations share the objects -
+                // documented, see DomainsTrace.tla OwnedBy - so the common name is only used where it must not collide)
+                let both = if $shm && prefixes[0] == prefixes[1] { format!("both{d}") } else { "both".to_string() };
+                for n in [format!("own{d}"), both] {
                     let name = fname(&n);
                     let r: Result<Box<dyn Any>, String> = $create(&name, &cfgs[d]);
                     let rs = match r {
@@ -698,8 +701,9 @@ pub fn main(args: &Args) {
     let only = args.get("pairs");
     let mut w = TraceWriter::create(&args.get("out").expect("--out"));
     let mut rec = Rec { w: &mut w, per: HashMap::new(), log: SysLog::open(&syslog), kinds_seen: BTreeSet::new() };
-    let r1 = format!("{work}/r1");
-    let r2 = format!("{work}/r2");
+    // (short roots: the path of a unix socket is limited to 107 bytes)
+    let r1 = format!("{work}/1");
+    let r2 = format!("{work}/2");
     let api = |root: &str, p: String| Dom { root: root.to_string(), prefix: p.clone(), cfg: make_config(root, &p), how: "api".into() };
     let file = |label: &str, root: &str, p: String| {
         let cfg = config_from_file(&work, label, root, &p);
